@@ -678,9 +678,12 @@ def _r2_r5(ctx, m, tsent=()):
                 notread.append(("jacrhs init", s.line, show(v)[:100]))
         if s.array == "jacrhs" and s.kind == "wrap":
             v = s.value
-            if v[0] == "ifexp" and v[1][0] == "cmp":
-                sent[("thermal wrap test", FILE, s.line)] = v[1][2][1][1] if v[1][2][1][0] == "const" else None
-                sent[("thermal wrap kept value", FILE, s.line)] = v[2][1] if v[2][0] == "const" else (v[3][1] if v[3][0] == "const" else None)
+            if v[0] in ("ifexp", "phi") and len(v) == 4 and v[1][0] == "cmp" and len(v[1][2]) == 2:
+                lit_ = v[1][2][1][1] if v[1][2][1][0] == "const" else None
+                sent[("thermal wrap test", FILE, s.line)] = lit_
+                slot_ = ("sub", m.JAC, simp(s.fact.index))
+                # the value kept for a sentinel entry: a literal, or the untouched entry itself (then it is the tested literal)
+                sent[("thermal wrap kept value", FILE, s.line)] = v[2][1] if v[2][0] == "const" else (v[3][1] if v[3][0] == "const" else (lit_ if slot_ in (v[2], v[3]) else None))
             else:
                 # the wrap as a conditional store `if entry != sentinel: entry = wrap(entry)`: the test is in the guard, the kept
                 # value is the untouched entry itself
